@@ -122,6 +122,58 @@ fn too_expensive(scn: &Scenario) -> bool {
     false
 }
 
+/// Chains of variable-to-variable bindings of random length and direction, ended (or not) by a
+/// constant, then handed to every built-in that resolves its arguments through the substitution
+/// set (print, print_list, count, append, comparison, arithmetic, unification with a term).
+fn binding_chain_programs(rng: &mut Rng) -> (Vec<Clause>, Vec<QuerySpec>) {
+    let mut clauses = vec![];
+    let mut queries = vec![];
+    let n_rules = rng.range(2, 4);
+    for r in 0..n_rules {
+        let len = rng.range(1, 4) as usize;
+        let mut gs: Vec<GoalSpec> = vec![];
+        // $C0 = $C1, $C1 = $C2, ... in random order and direction (each pair once: no cycles)
+        let mut pairs: Vec<(usize, usize)> = (0..len).map(|i| (i, i + 1)).collect();
+        rng.shuffle(&mut pairs);
+        for (a, b) in pairs {
+            let (l, r2) = if rng.chance(1, 2) { (a, b) } else { (b, a) };
+            gs.push(GoalSpec::Unify(Term::Var(format!("$C{}", l)), Term::Var(format!("$C{}", r2))));
+        }
+        let ground = rng.chance(1, 2);
+        if ground {
+            let end = if rng.chance(1, 2) { len } else { 0 };
+            let c = if rng.chance(1, 2) { Term::Int(rng.range(1, 5) as i64) } else { Term::atom("k") };
+            let g = GoalSpec::Unify(Term::Var(format!("$C{}", end)), c);
+            let at = rng.usize_below(gs.len() + 1);
+            gs.insert(at, g);
+        }
+        let v = |rng: &mut Rng| Term::Var(format!("$C{}", rng.usize_below(len + 1)));
+        let uses = rng.range(1, 3);
+        for _ in 0..uses {
+            let g = match rng.below(6) {
+                0 => GoalSpec::Print(vec![Term::atom("<%s|%s>"), v(rng), v(rng)]),
+                1 => GoalSpec::BuiltIn("print_list".into(), vec![Term::List(vec![v(rng), Term::atom("z")], None)]),
+                2 => GoalSpec::BuiltIn("count".into(), vec![Term::List(vec![v(rng), v(rng)], None), Term::var("$N")]),
+                3 => GoalSpec::BuiltIn("append".into(), vec![v(rng), Term::List(vec![Term::atom("z")], None), Term::var("$L")]),
+                4 => GoalSpec::Cmp((*rng.pick(&["equal", "less_than", "greater_than_or_equal"])).to_string(), v(rng), Term::Int(3)),
+                _ => GoalSpec::Call("holds".into(), vec![v(rng)]),
+            };
+            gs.push(g);
+        }
+        let name = format!("bc{}", r);
+        let head_var = rng.chance(1, 2);
+        clauses.push(Clause {
+            functor: name.clone(),
+            args: if head_var { vec![Term::Var(format!("$C{}", rng.usize_below(len + 1)))] } else { vec![] },
+            body: Some(GoalSpec::And(gs)),
+        });
+        queries.push(QuerySpec { functor: name, args: if head_var { vec![Term::var("$P0")] } else { vec![] }, class: QueryClass::Finite, via_text: false });
+    }
+    clauses.push(Clause { functor: "holds".into(), args: vec![Term::var("$F")], body: None });
+    clauses.push(Clause { functor: "holds".into(), args: vec![Term::Int(3)], body: None });
+    (clauses, queries)
+}
+
 fn uses_cut(scn: &Scenario) -> bool {
     scn.clauses.iter().any(|c| c.body.as_ref().map(|b| b.contains(&|g| matches!(g, GoalSpec::Cut))).unwrap_or(false))
 }
@@ -144,6 +196,19 @@ fn make_scenario(seed: u64, part: &str, index: u64) -> (Scenario, Vec<MOp>) {
     if part == "cutfree" && uses_cut(&scn) {
         // give up on the generator: strip the rules that contain a cut
         scn.clauses.retain(|c| !c.body.as_ref().map(|b| b.contains(&|g| matches!(g, GoalSpec::Cut))).unwrap_or(false));
+    }
+    if rng.chance(1, 3) {
+        // binding chains through the built-ins (both parts of the corpus)
+        let (mut c, q) = binding_chain_programs(&mut rng);
+        scn.clauses.append(&mut c);
+        let base = scn.queries.len();
+        scn.queries.extend(q);
+        for (k, qi) in (base..scn.queries.len()).enumerate() {
+            let h = 200 + k;
+            scn.history.push(Op::New { h, q: qi });
+            scn.history.push(if rng.chance(1, 2) { Op::SolveAll { h } } else { Op::Next { h } });
+            scn.history.push(Op::Next { h });
+        }
     }
     if part == "cut" {
         if rng.chance(2, 3) || !uses_cut(&scn) {
